@@ -436,6 +436,35 @@ def verify_function(world, contract, report=None, only_cfg=None, scope=None):
     return rep
 
 
+def find_stmt_block(fd, spec):
+    """the statements of a block fragment in a function AST.  spec = (start anchor, count) or
+    (start anchor, ('until', end anchor)): consecutive statements of one (nested) statement list, from the
+    statement whose source text starts with the start anchor up to and including the first later statement
+    of the same list whose text starts with the end anchor.  Returns the list, or None when the anchors do
+    not identify exactly one block (the fragment contract is then not applicable: undecided)."""
+    import ast as _ast
+    anchor, extent = spec
+    norm = lambda st: _ast.unparse(st).replace('\n', ' ')
+    found = []
+    for n in _ast.walk(fd):
+        for fld in ('body', 'orelse', 'finalbody'):
+            blk = getattr(n, fld, None)
+            if isinstance(blk, list):
+                for i, st in enumerate(blk):
+                    if isinstance(st, _ast.stmt) and norm(st).startswith(anchor):
+                        if isinstance(extent, int):
+                            if len(blk[i:i + extent]) == extent:
+                                found.append(blk[i:i + extent])
+                        else:
+                            ends = [j for j in range(i, len(blk)) if norm(blk[j]).startswith(extent[1])]
+                            if ends:
+                                found.append(blk[i:ends[0] + 1])
+    if len(found) != 1:
+        return None
+    return found[0]
+
+
+
 class FragmentContract(Contract):
     """contract on a fragment of a function: the body of the loop with the given ordinal, executed once
     from an arbitrary state described by make_env (sound for "every iteration does exactly this";
@@ -478,19 +507,11 @@ def verify_fragment(world, contract, report=None, only_cfg=None, scope=None):
     elif getattr(contract, 'stmt_block', None) is not None:
         # `count` consecutive statements of some (nested) block, starting at the statement whose text
         # starts with the anchor
-        anchor, count = contract.stmt_block
-        norm = lambda st: _ast.unparse(st).replace('\n', ' ')
-        found = []
-        for n in _ast.walk(fd):
-            for fld in ('body', 'orelse', 'finalbody'):
-                blk = getattr(n, fld, None)
-                if isinstance(blk, list):
-                    for i, st in enumerate(blk):
-                        if isinstance(st, _ast.stmt) and norm(st).startswith(anchor):
-                            found.append(blk[i:i + count])
-        if len(found) != 1 or len(found[0]) != count:
+        blk_ = find_stmt_block(fd, contract.stmt_block)
+        if blk_ is None:
             rep.unsupported.append(('bind', 'statement block %r not found uniquely' % (contract.stmt_block,)))
             return rep
+        found = [blk_]
         node = types.SimpleNamespace(body=found[0])
         short = contract.qualname.replace('tangermeme.', '') + '#block'
     else:
@@ -581,13 +602,10 @@ def fragment_statements(world, contract):
         return pyfn, fd.body[i0:i1]
     blk = getattr(contract, 'stmt_block', None)
     if blk is not None:
-        for n in _ast.walk(fd):
-            for fld in ('body', 'orelse', 'finalbody'):
-                b = getattr(n, fld, None)
-                if isinstance(b, list):
-                    for i, st in enumerate(b):
-                        if isinstance(st, _ast.stmt) and norm(st).startswith(blk[0]):
-                            return pyfn, b[i:i + blk[1]]
+        found = find_stmt_block(fd, blk)
+        if found is None:
+            raise BindError("fragment block not found uniquely")
+        return pyfn, found
     ids = loop_ordinals(fd)
     for n in _ast.walk(fd):
         if isinstance(n, (_ast.For, _ast.While)) and ids.get(id(n)) == contract.loop_ordinal:
